@@ -12,11 +12,14 @@ MCKeys == [c \in MCClasses |-> IF c = "unit" THEN {"u1", "u2", "sq1"} ELSE IF c 
 \* Dimension.derive names a dimension d1 that came about anonymously by arithmetic, Dimension.named looks up)
 DimMode == EnvInt("VERIF_DIMS", 0)
 MCNameTok == {"", "na", "nb"}
-MCSymTok == {"", "sa", "sb", "na"}      \* "na" is also a NAME: a symbol lookup may fall back to the name registry
+MCSymTok == {"", "sa", "sb", "na", "so"}   \* "na" is also a NAME: a symbol lookup may fall back to the name registry;
+                                           \* "so" contains a Unicode compatibility character (the OHM SIGN): stored and looked up verbatim
 MCBadSyms == {"s c", "#5"}          \* a symbol with a space; a symbol that is not a string (the integer 5)
 N1 == MCNameTok \ {""}
 MCMaybeSyms == {"s~c"}               \* a symbol with a TAB: accepted today; rejecting it would be fine too, but atomically
 S1 == (MCSymTok \ {""}) \cup MCBadSyms \cup MCMaybeSyms
+ScaleQ(k, n, s) == IF ~Valid("unit", k, n, s) THEN Refuse("scale-q", "unit", k, n, s)
+                   ELSE (Commit("scale-q", "unit", k, n, s) \/ Refuse("scale-q", "unit", k, n, s))
 Step ==
   \/ \E k \in {"u1", "u2"}, n \in N1, s \in S1 : Declare("define", "unit", k, n, s, TRUE)
   \/ \E k \in known["unit"], n \in N1, s \in S1 : Declare("derive", "unit", k, n, s, FALSE)
@@ -28,7 +31,12 @@ Step ==
   \/ \E k \in {"p7", "p8", "p0"}, n \in MCNameTok, s \in MCSymTok :
         (n # "" \/ s # "") /\ NamesOf("prefix", k) = <<>> /\ SymsOf("prefix", k) = <<>> /\ Declare("named", "prefix", k, n, s, FALSE)
   \/ \E k \in {"p7", "p8"} : k \notin known["prefix"] /\ Anon("prefix", k)
-  \/ \E x \in {"sa", "na"} : <<"unit", x>> \notin asked /\ Cardinality(asked) < 2 /\ Lookup("unit", x)
+  \/ \E x \in {"sa", "na", "so"} : <<"unit", x>> \notin asked /\ Cardinality(asked) < 2 /\ Lookup("unit", x)
+  \* Dimension.scale(zero, name, symbol) defines a unit and its zero point in one call: with a sound zero it is a
+  \* definition like any other; with a QUESTIONABLE zero (a quantity of another dimension) the library may accept or
+  \* refuse it - atomically either way
+  \/ \E k \in {"u1", "u2"}, n \in N1, s \in {"sa", "sb"} : Declare("scale", "unit", k, n, s, TRUE)
+  \/ \E k \in {"u1", "u2"}, n \in N1, s \in {"sa", "sb"} : k \notin known["unit"] /\ ScaleQ(k, n, s)
   \/ <<"prefix", "sa">> \notin asked /\ Cardinality(asked) < 2 /\ Lookup("prefix", "sa")
 DimStep ==
   \/ \E k \in {"d2", "d3"}, n \in N1 :
